@@ -78,7 +78,13 @@ func (p *Policy) UnmarshalCedar(b []byte) error {
 	}
 
 	parser := newParser(tokens)
-	return p.fromCedar(&parser)
+	if err = p.fromCedar(&parser); err != nil {
+		return err
+	}
+	if !parser.peek().isEOF() {
+		return parser.errorf("unexpected token after policy")
+	}
+	return nil
 }
 
 func (p *Policy) fromCedar(parser *parser) error {
